@@ -5,6 +5,7 @@ import asyncio
 from math import inf
 from typing import Any, Dict, List, Optional, Set
 
+from ..common import CaseTimeout
 from .model import CallRec, Injected, PoolM, ReqM, TaskM
 
 CANCEL_PROPS = {"cancel": "C06", "cancel_group": "C07", "cancel_all": "C07", "stop": "C14", "stop_all": "C14",
@@ -463,6 +464,8 @@ class Oracles:
             if w.teardown:
                 raise
             raised = asyncio.CancelledError()
+        except CaseTimeout:
+            raise
         except BaseException as e:
             raised = e
         finally:
@@ -565,6 +568,8 @@ class Oracles:
             if w.teardown:
                 raise
             raised = asyncio.CancelledError()
+        except CaseTimeout:
+            raise
         except BaseException as e:
             raised = e
         if w.teardown:
@@ -653,6 +658,8 @@ class Oracles:
         try:
             r = await pm.pool.until_closed()
         except asyncio.CancelledError:
+            raise
+        except CaseTimeout:
             raise
         except BaseException as e:
             w.fail({"C08"}, "until_closed/raised", repr(e))
